@@ -65,6 +65,18 @@ add("C13", "Definitional counterparts (explicit path enumeration, |Den|, depende
     "diagrams are DONT_CARE (the library's own test pins 'no cube').",
     "TLA+ definitional query semantics evaluated by TLC on recorded real tables; invariants of the model-checked store model", "6/C13")
 
+add("C11", "Call histories on one Adf object: every answer after a history is judged by TLC against the definition recomputed from the ASTs and "
+    "against the answer of a fresh object; the whole history is run twice and must agree element by element (handles, order); adf.ac must be "
+    "unchanged; after the history the real memo tables (H1) are audited entry by entry against the real node table. Model side: StepOK + CachesOK "
+    "on every transition of the closed two-variable store graph (results independent of memo contents).", BDD_NOTE,
+    "TLC trace validation of call histories (after-history vs definition vs fresh vs repeated run) + memo-table audit; store model checked exhaustively", "6/C11")
+add("C14", "Persist.tla runs an original store and an imported / rebuilt copy in lock-step through every operation history over two variables "
+    "(4072 states, 2.5 M transitions): identical tables, identical results, regenerated dependency lists and counts exact. On the code side a serde "
+    "round trip + fix_import or a rebuild from decimal strings through Bdd::from(Vec<BddNode>) happens at a random point of seeded call histories "
+    "(native and bridged ADFs) and of raw store sequences; TLC checks identical node numbering, identical roots and equal answers for all later calls.",
+    BDD_NOTE + " The CLI --export/--import path and the no-overwrite rule are exercised through the C15 CLI runner (see C15).",
+    "TLA+ lock-step model of original and persisted copy model-checked; TLC trace validation of real round trips in mid-history", "6/C14")
+
 def main():
     hooks = subprocess.run(["git", "-C", "/repo", "log", "--format=%H %s"], stdout=subprocess.PIPE, text=True).stdout.splitlines()
     hook_commits = [l.split()[0] for l in hooks if " verif hook" in l]
